@@ -1,8 +1,117 @@
 (* Props/C08.v — property C08: streams deliver every item exactly once, in order, to every
-   reader.  Only statements, each closed by [exact]. *)
+   reader.  Only statements, each closed by [exact]; non-vacuity examples beside them.
+
+   A *run* is [run fuel init_state ops]: [ops] is an arbitrary list of API calls
+   (Pipe / StreamReaderFromArray / Copy / MergeStreamReaders / StreamReaderWithConvert /
+   Send / writer Close / Recv / reader Close) and forwarder-goroutine steps, i.e. one
+   schedule of all the goroutines holding ends of the streams; the arguments [ch] of
+   ORecv / OFwd are the outcomes of Go's [select]s.  "forall fuel ops" therefore quantifies
+   over every tree, every item sequence, every capacity and every interleaving. *)
 From Eino Require Import Base.Util Model.Stream Proofs.Stream.
+
+(* ------------------------------------------------------------------ base streams *)
 
 Theorem pipe_eof_iff_closed_and_drained : forall s,
   fst (stream_recv s) = PEOF <-> (s_sclosed s = true /\ s_buf s = []).
 Proof. exact stream_recv_eof_iff. Qed.
 Print Assumptions pipe_eof_iff_closed_and_drained.
+
+(* pipe_fifo: in every reachable state, for every base stream (user pipes, the streams of
+   forwarder goroutines, the stream built from array sources by a merge): what receivers
+   were handed, followed by what is buffered, is exactly what was accepted from the sender,
+   in order; the buffer respects the capacity; and Recv returns io.EOF exactly when the
+   sender has closed and every accepted item has been delivered. *)
+Theorem pipe_fifo : forall fuel ops bs G, run fuel init_state ops = (bs, G) ->
+  forall sid s, nth_error (streams (st_store G)) sid = Some s ->
+    s_sent s = s_deliv s ++ s_buf s
+    /\ List.length (s_buf s) <= eff_cap (s_cap s)
+    /\ (fst (stream_recv s) = PEOF <-> (s_sclosed s = true /\ s_deliv s = s_sent s)).
+Proof. exact run_pipe_fifo. Qed.
+Print Assumptions pipe_fifo.
+
+(* ------------------------------------------------------------------ copies *)
+
+(* copy_each_child_full (local form): in every reachable state, for every copy parent:
+   the source has been received from exactly once per filled list position (plus once for
+   the final EOF); every child has received a prefix of the one shared item list — the
+   prefix up to its cursor — and a child that was handed io.EOF has received all of it. *)
+Theorem copy_each_child_prefix : forall fuel ops bs G, run fuel init_state ops = (bs, G) ->
+  forall p P, nth_error (parents (st_store G)) p = Some P ->
+    p_pulls P = List.length (p_items P) + (if p_eof P then 1 else 0)
+    /\ forall i oc g, nth_error (p_cur P) i = Some oc -> nth_error (p_got P) i = Some g ->
+         (exists k, g = firstn k (p_items P))
+         /\ (forall c, oc = Some c -> g = firstn c (p_items P) /\ c <= List.length (p_items P))
+         /\ (nth_error (p_sawEOF P) i = Some true -> g = p_items P /\ p_eof P = true).
+Proof. exact run_copy_children. Qed.
+Print Assumptions copy_each_child_prefix.
+
+(* ------------------------------------------------------------------ convert *)
+
+(* convert_is_filter_map (local form): every converted reader anywhere in a reachable state
+   (held by user code, wrapped by a copy parent, owned by a forwarder goroutine; at any
+   nesting depth) has delivered exactly the item-wise image of what it received from its
+   source, items mapped to ErrNoValue dropped, source errors passed through. *)
+Theorem convert_is_filter_map : forall fuel ops bs G, run fuel init_state ops = (bs, G) ->
+  forall t f cin cout, In t (readers_of G) -> In (f, cin, cout) (conv_nodes t) ->
+    cout = filter_map (conv_item f) cin.
+Proof. exact run_convert_filter_map. Qed.
+Print Assumptions convert_is_filter_map.
+
+(* ------------------------------------------------------------------ arrays *)
+
+(* array_ops_sequential: Recv / Close / Copy / Merge on array-backed readers touch neither
+   the store nor the forwarder table (no stream, no goroutine), take no [select] outcome and
+   never block: they are functions of the reader alone. *)
+Theorem array_recv_sequential : forall fuel st d rest ch,
+  recv (S fuel) st (RArr d rest) ch =
+    match rest with
+    | [] => (PEOF, st, RArr d rest, ch)
+    | x :: r => (PItem (IVal x), st, RArr (d ++ [x]) r, ch)
+    end.
+Proof. exact array_recv. Qed.
+Print Assumptions array_recv_sequential.
+
+Theorem array_copy_sequential : forall fuel G h n d rest,
+  live_rd G h = Some (RArr d rest) -> 2 <= n ->
+  exists hs', do_op fuel G (OCopy h n) =
+    (BNew (seq (List.length (st_handles G)) n),
+     mkState (st_store G) (st_fwds G) (hs' ++ repeat (mkH (RArr [] rest) true false [] false) n))
+    /\ List.length hs' = List.length (st_handles G).
+Proof. exact array_copy. Qed.
+Print Assumptions array_copy_sequential.
+
+Theorem array_merge_sequential : forall fuel G h0 h1 hs ts,
+  nodupb (h0 :: h1 :: hs) = true -> live_rds G (h0 :: h1 :: hs) = Some ts -> forallb is_arr ts = true ->
+  exists hs', List.length hs' = List.length (st_handles G) /\
+    do_op fuel G (OMerge (h0 :: h1 :: hs)) =
+      (BNew [List.length (st_handles G)],
+       mkState (st_store G) (st_fwds G)
+               (hs' ++ [mkH (match flat_map arr_rest ts with
+                             | [] => RMul [] []
+                             | _ :: _ => RArr [] (flat_map arr_rest ts)
+                             end) true false [] false])).
+Proof. exact array_merge. Qed.
+Print Assumptions array_merge_sequential.
+
+(* ------------------------------------------------------------------ non-vacuity *)
+
+(* a run with a pipe, a conversion, a copy, a merge through forwarders, sends and receives:
+   the hypotheses of the theorems above are satisfiable by a state with non-empty logs *)
+Definition ex_ops : list op :=
+  [ OPipe 2; OSend 0 (IVal 1%N); OSend 0 (IVal 2%N); OCloseSend 0;
+    OConv 0 (fun v => if N.eqb v 1 then CSkip else CVal (v + 10)%N);
+    OCopy 1 2; ORecv 2 []; ORecv 2 []; ORecv 3 [];
+    OArray [7%N; 8%N]; OMerge [3; 4]; OFwd 0 []; OFwd 0 []; ORecv 5 [0]; ORecv 5 [0] ].
+
+Example ex_run_obs :
+  fst (run 50 init_state ex_ops) =
+  [ BNew [0]; BSend SOk; BSend SOk; BSend SOk; BNew [1]; BNew [2; 3];
+    BRecv (PItem (IVal 12%N)); BRecv PEOF; BRecv (PItem (IVal 12%N));
+    BNew [4]; BNew [5]; BStep; BStep; BRecv (PItem (IVal 7%N)); BRecv (PItem (IVal 8%N)) ].
+Proof. vm_compute. reflexivity. Qed.
+
+Example ex_array_merge :
+  fst (run 10 init_state [OArray [1%N; 2%N]; OArray [3%N]; ORecv 0 []; OMerge [1; 0]; ORecv 2 []; ORecv 2 []; ORecv 2 []])
+  = [BNew [0]; BNew [1]; BRecv (PItem (IVal 1%N)); BNew [2];
+     BRecv (PItem (IVal 3%N)); BRecv (PItem (IVal 2%N)); BRecv PEOF].
+Proof. vm_compute. reflexivity. Qed.
